@@ -632,9 +632,17 @@ func oneInstance(ts *TypeSpec, i int, r *vlib.Rand) {
 	noteSections(ts, tree)
 	c.Count("instances", 1)
 	c.SetAdd("types_covered", typ)
-	if !roundTrip(ts, tree, where) {
-		return
+	clean := roundTrip(ts, tree, where)
+	if clean {
+		flipsAndSample(ts, tree, i, r, where)
 	}
+	// (7) the same object written again after its fields were changed (history.go); last,
+	// because the steps change the model tree
+	runHistory(ts, tree, i, r.Fork("history"), where, clean)
+}
+
+func flipsAndSample(ts *TypeSpec, tree *Node, i int, r *vlib.Rand, where string) {
+	typ := ts.Name
 	// (6) a few single-field flips per instance, walking through the patterns
 	var base []byte
 	if p := vlib.Catch(func() { base = encode(ts, buildObj(tree)) }); p != nil {
@@ -671,6 +679,7 @@ func sweep(ts *TypeSpec, pat string, idx int, r *vlib.Rand) {
 			}
 			if flipOne(ts, tree, base, lf, fmt.Sprintf("%s sweep of %s", typ, pat)) {
 				c.Count("sweep_patterns_flipped", 1)
+				historyFlip(ts, tree, lf, r.Fork("hist"), fmt.Sprintf("%s history sweep of %s", typ, pat))
 				return
 			}
 		}
@@ -755,5 +764,12 @@ func main() {
 	c.Floor("record_lists_checked", int64(n)/10/sh, c.Counter("record_lists_checked"))
 	c.Floor("records_compared", int64(n)/10/sh, c.Counter("records_compared"))
 	c.Floor("inner_packs_compared", int64(n)/5/sh, c.Counter("inner_packs_compared"))
+	c.Floor("histories", total/10/sh, c.Counter("histories"))
+	c.Floor("history_rewrites_compared", total/5/sh, c.Counter("history_rewrites_compared"))
+	c.Floor("history_same_object_rewrites", total/10/sh, c.Counter("history_same_object_rewrites"))
+	c.Floor("history_decode_modify_ok", total/40/sh, c.Counter("history_decode_modify_ok"))
+	c.Floor("history_inplace_steps", int64(n)/10/sh, c.Counter("history_inplace_steps"))
+	c.Floor("history_setter_rewrites", int64(n)/10/sh, c.Counter("history_setter_rewrites"))
+	c.Floor("sweep_history_flips", int64(totalPatterns)/10/sh, c.Counter("sweep_history_flips"))
 	c.Finish()
 }
